@@ -7,9 +7,11 @@ pub mod c03;
 pub mod c04;
 pub mod c06;
 pub mod c07;
+pub mod c08;
 pub mod c11;
 pub mod c12;
 pub mod c13;
+pub mod c14;
 pub mod c15;
 pub mod c16;
 pub mod c17;
@@ -24,9 +26,11 @@ pub fn registry() -> Vec<(&'static str, fn(&Report), Option<fn(&Value) -> String
         ("C04", c04::run, Some(c04::replay)),
         ("C06", c06::run, Some(c06::replay)),
         ("C07", c07::run, Some(c07::replay)),
+        ("C08", c08::run, Some(c08::replay)),
         ("C11", c11::run, Some(c11::replay)),
         ("C12", c12::run, Some(c12::replay)),
         ("C13", c13::run, Some(c13::replay_case)),
+        ("C14", c14::run, Some(c14::replay)),
         ("C15", c15::run, Some(c15::replay)),
         ("C16", c16::run, Some(c16::replay)),
         ("C17", c17::run, Some(c17::replay)),
